@@ -6,6 +6,9 @@ import Soa.Model.Cap
 import Soa.Model.Views
 import Soa.Model.SkelSem
 import Soa.Extracted.Skel
+import Soa.Model.SkelRefs
+import Soa.Model.Loop
+import Soa.Extracted.Loops
 /-!
 # Scenario interpreter: one operation per line, one observation line per side
 
@@ -29,6 +32,47 @@ def swapRemove (dr : Bool) (c : Cols) (i : Nat) : Model.Out := (runElem dr sk_PV
 def pop (dr : Bool) (c : Cols) : Model.Out := (runElem dr sk_PVec_pop c []).getD (Model.pop c)
 def append (dr : Bool) (c d : Cols) : Model.Out := (runElem dr sk_PVec_append c [.cont d]).getD (Model.append c d)
 def splitOff (dr : Bool) (c : Cols) (i : Nat) : Model.Out := (runElem dr sk_PVec_split_off c [.nat i]).getD (Model.splitOff c i)
+
+/-! the loop-style functions: the statement trees extracted from /repo (`Soa/Extracted/Loops.lean`) run by the
+    interpreter of `Soa/Model/Loop.lean` over the extracted element-level methods -/
+open Soa.Lp in
+def swapWhole (c : Cols) (a b : Nat) : Model.Out :=
+  (runSwap sk_PSliceMut_a_swap c ⟨0, c.firstLen⟩ a b).getD
+    (let r := c.apply2 (swapOp a b) (Model.noArgs c); { st := r.st, panicked := r.panicked })
+open Soa.Lp in
+def methods0 (dr : Bool) (empty : Cols) : Methods :=
+  { len := Cols.firstLen, pop := pop dr, push := push dr, truncate := Model.truncate dr, swap := swapWhole, empty := empty }
+open Soa.Lp in
+def truncate (dr : Bool) (c : Cols) (k : Nat) : Model.Out :=
+  (run { dr := dr, ps := [.nat k], M := methods0 dr c, fuel := c.firstLen + 2 } lp_PVec_truncate c).getD (Model.truncate dr c k)
+open Soa.Lp in
+def methods (dr : Bool) (empty : Cols) : Methods := { methods0 dr empty with truncate := truncate dr }
+open Soa.Lp in
+def clear (dr : Bool) (c : Cols) : Model.Out :=
+  (run { dr := dr, ps := [], M := methods dr c, fuel := c.firstLen + 2 } lp_PVec_clear c).getD (Model.clear dr c)
+open Soa.Lp in
+def dropVec (dr : Bool) (c : Cols) : Model.Out :=
+  (run { dr := dr, ps := [], M := methods dr c, fuel := c.firstLen + 2 } lp_PVec_Drop_drop c).getD (Model.dropVec dr c)
+open Soa.Lp in
+def retain (dr : Bool) (mut_ : Bool) (c : Cols) (keep : Nat → Bool) (boom : Option Nat) (touch : Nat → Nat → Option (Nat × Nat)) : Model.Out :=
+  (run { dr := dr, ps := [], keep := keep, boom := boom, touch := touch, M := methods dr c, fuel := c.firstLen + 2 }
+    (if mut_ then lp_PVec_retain_mut else lp_PVec_retain) c).getD (Model.retain dr c keep boom touch)
+open Soa.Lp in
+def resize (dr : Bool) (c : Cols) (n : Nat) (e : Cols) : Model.Out :=
+  (run { dr := dr, ps := [.nat n, .elem e], M := methods dr c, fuel := c.firstLen + 2 } lp_PVec_resize c).getD (Model.resize dr c n e)
+open Soa.Lp in
+def extendFromSlice (dr : Bool) (c src : Cols) : Model.Out :=
+  (run { dr := dr, ps := [.src src], M := methods dr c, fuel := c.firstLen + 2 }
+    lp_PVec_soa_derive_SoAAppendVec_P_extend_from_slice c).getD (Model.extendFromSlice c src)
+open Soa.Lp in
+def extend (dr : Bool) (c : Cols) (es : List Cols) : Model.Out :=
+  (run { dr := dr, ps := [.elems es], M := methods dr c, fuel := c.firstLen + 2 } lp_PVec_Extend_P_extend c).getD (Model.extend c es)
+open Soa.Lp in
+/-- `collect()`: `FromIterator::from_iter` -/
+def fromIter (dr : Bool) (empty : Cols) (es : List Cols) : Model.Out :=
+  match run { dr := dr, ps := [.elems es], M := methods dr empty, fuel := 2 } lp_PVec_std_iter_FromIterator_P_from_iter empty with
+  | some o => (match o.ret with | some c => { o with st := c } | none => Model.extend empty es)
+  | none => Model.extend empty es
 end Gen
 
 structure Ctx where
@@ -175,7 +219,7 @@ def stepCore (cx : Ctx) (w : World) (ws : List String) : StepOut :=
   let getS (r : Nat) : List Elem := w.rows.getD r []
   -- assigning a register destroys its previous content (the vector's `Drop`)
   let assignI (regs : List Cols) (r : Nat) (c : Cols) : List Cols × Ev :=
-    (setReg regs r c, (Model.dropVec dr (regs.getD r sh.empty)).ev)
+    (setReg regs r c, (Gen.dropVec dr (regs.getD r sh.empty)).ev)
   let assignS (rows : List (List Elem)) (r : Nat) (c : List Elem) : List (List Elem) × Ev :=
     (setReg rows r c, (Spec.dropVec dr (rows.getD r [])).ev)
   let elemOp (r : Nat) (oi : Model.Out) (os : Spec.Out) (opt : Bool) (made : List Nat) : StepOut :=
@@ -229,11 +273,11 @@ def stepCore (cx : Ctx) (w : World) (ws : List String) : StepOut :=
     | _, _ => badOp w
   | ["truncate", r, k] =>
     match parseReg r, k.toNat? with
-    | some r, some k => elemOp r (Model.truncate dr (getI r) k) (Spec.truncate dr (getS r) k) false []
+    | some r, some k => elemOp r (Gen.truncate dr (getI r) k) (Spec.truncate dr (getS r) k) false []
     | _, _ => badOp w
   | ["clear", r] =>
     match parseReg r with
-    | some r => elemOp r (Model.clear dr (getI r)) (Spec.clear dr (getS r)) false []
+    | some r => elemOp r (Gen.clear dr (getI r)) (Spec.clear dr (getS r)) false []
     | none => badOp w
   | ["append", r, q] =>
     match parseReg r, parseReg q with
@@ -270,7 +314,7 @@ def stepCore (cx : Ctx) (w : World) (ws : List String) : StepOut :=
     | some r =>
       let keep := keepFn ((kv rest "keep").getD "")
       let boom := (kv rest "panic").bind (·.toNat?)
-      let oi := Model.retain dr (getI r) keep boom (fun _ _ => none)
+      let oi := Gen.retain dr false (getI r) keep boom (fun _ _ => none)
       let os := Spec.retain dr (getS r) keep boom (fun _ _ => none)
       { w := { w with regs := setReg w.regs r oi.st, rows := setReg w.rows r os.st },
         i := { status := if oi.panicked then "panic" else "ok", ev := oi.ev, vis := some oi.vis },
@@ -282,7 +326,7 @@ def stepCore (cx : Ctx) (w : World) (ws : List String) : StepOut :=
       let keep := keepFn ((kv rest "keep").getD "")
       let boom := (kv rest "panic").bind (·.toNat?)
       let touch := touchFn ((kv rest "wleaf").bind (·.toNat?)) (((kv rest "wtag").bind (·.toNat?)).getD 0)
-      let oi := Model.retain dr (getI r) keep boom touch
+      let oi := Gen.retain dr true (getI r) keep boom touch
       let os := Spec.retain dr (getS r) keep boom touch
       { w := { w with regs := setReg w.regs r oi.st, rows := setReg w.rows r os.st },
         i := { status := if oi.panicked then "panic" else "ok", ev := oi.ev, vis := some oi.vis },
@@ -293,7 +337,7 @@ def stepCore (cx : Ctx) (w : World) (ws : List String) : StepOut :=
     match parseReg r, parseNats ts with
     | some r, some ts =>
       let es := ts.map sh.elem
-      let oi := Model.extend (getI r) es
+      let oi := Gen.extend dr (getI r) es
       let os := Spec.extend (getS r) (es.map Cols.rows).flatten
       elemOp r oi os false (es.map Cols.flat).flatten
     | _, _ => badOp w
@@ -301,7 +345,7 @@ def stepCore (cx : Ctx) (w : World) (ws : List String) : StepOut :=
     match parseReg r, parseNats ts with
     | some r, some ts =>
       let es := ts.map sh.elem
-      let oi := Model.extend sh.empty es
+      let oi := Gen.fromIter dr sh.empty es
       let os := Spec.extend [] (es.map Cols.rows).flatten
       let (regs, ei) := assignI w.regs r oi.st
       let (rows, es') := assignS w.rows r os.st
@@ -322,13 +366,13 @@ def stepCore (cx : Ctx) (w : World) (ws : List String) : StepOut :=
     match parseReg r, n.toNat?, t.toNat? with
     | some r, some n, some t =>
       let e := sh.elem t
-      elemOp r (Model.resize dr (getI r) n e) (Spec.resize dr (getS r) n e.rows) false e.flat
+      elemOp r (Gen.resize dr (getI r) n e) (Spec.resize dr (getS r) n e.rows) false e.flat
     | _, _, _ => badOp w
   | ["extend_from_slice", r, q] | ["extend_refs", r, q] | ["extend_refs_f", r, q] =>
     match parseReg r, parseReg q with
     | some r, some q =>
       if r == q then badOp w else
-      elemOp r (Model.extendFromSlice (getI r) (getI q)) (Spec.extendFromSlice (getS r) (getS q)) false []
+      elemOp r (Gen.extendFromSlice dr (getI r) (getI q)) (Spec.extendFromSlice (getS r) (getS q)) false []
     | _, _ => badOp w
   | ["to_vec", r, q] | ["to_vec_sm", r, q] | ["to_vec_ts", r, q] | ["to_vec_tsm", r, q] =>
     match parseReg r, parseReg q with
@@ -1020,7 +1064,7 @@ def stepLines (cx : Ctx) (w : World) (n : Nat) (line : String) : World × String
 
 /-- the final drop of every register, and the ledger audit -/
 def endLines (cx : Ctx) (w : World) : String × String :=
-  let ei := w.regs.foldl (fun ev c => ev ++ (Model.dropVec cx.drops c).ev) ({} : Ev)
+  let ei := w.regs.foldl (fun ev c => ev ++ (Gen.dropVec cx.drops c).ev) ({} : Ev)
   let es := w.rows.foldl (fun ev rs => ev ++ (Spec.dropVec cx.drops rs).ev) ({} : Ev)
   let li := w.li.add cx [] ei
   let ls := w.ls.add cx [] es
